@@ -1108,7 +1108,8 @@ fn get_wrapping_or_insert<'w, D: TextDecorator>(
 ) -> &'w mut WrappedBlock<Vec<D::Annotation>> {
     wrapping.get_or_insert_with(|| {
         let wwidth = match options.wrap_width {
-            Some(ww) => ww.min(width),
+            // A zero wrap width could never make progress; treat it as 1.
+            Some(ww) => ww.min(width).max(1),
             None => width,
         };
         WrappedBlock::new(
